@@ -9,6 +9,11 @@ CONSTANTS
   HistClients = {}
   HistOutcomes = {}
   Design = "asks"
+  MaxLat = 2
+  CanonOuts = {}
+  ConfSets = {}
+  OtherSets = {}
+  RefKind = "att"
 INVARIANTS OfferedInFull SuccessIff ReturnsByTimeout Independence ScatterPartition
 CONSTRAINT HWM
 POSTCONDITION TraceAccepted
